@@ -57,13 +57,13 @@ func parseOrExpression(tokens []string) (*ExprNode, []string, error) {
 
 // parseAndExpression parses AND expression
 func parseAndExpression(tokens []string) (*ExprNode, []string, error) {
-	left, remaining, err := parseComparisonExpression(tokens)
+	left, remaining, err := parseNotExpression(tokens)
 	if err != nil {
 		return nil, nil, err
 	}
 
 	for len(remaining) > 0 && strings.ToUpper(remaining[0]) == "AND" {
-		right, newRemaining, err := parseComparisonExpression(remaining[1:])
+		right, newRemaining, err := parseNotExpression(remaining[1:])
 		if err != nil {
 			return nil, nil, err
 		}
@@ -78,6 +78,24 @@ func parseAndExpression(tokens []string) (*ExprNode, []string, error) {
 	}
 
 	return left, remaining, nil
+}
+
+// parseNotExpression parses a logical NOT, which binds looser than a comparison and
+// tighter than AND: NOT a > 2 AND b is (NOT (a > 2)) AND b. The operand is kept in Left,
+// where evaluateBoolOperator looks for it.
+func parseNotExpression(tokens []string) (*ExprNode, []string, error) {
+	if len(tokens) > 0 && strings.ToUpper(tokens[0]) == "NOT" {
+		operand, remaining, err := parseNotExpression(tokens[1:])
+		if err != nil {
+			return nil, nil, err
+		}
+		return &ExprNode{
+			Type:  TypeOperator,
+			Value: "NOT",
+			Left:  operand,
+		}, remaining, nil
+	}
+	return parseComparisonExpression(tokens)
 }
 
 // parseComparisonExpression parses comparison expression
